@@ -161,7 +161,9 @@ theorem C27_block_fits_request (cfg : Cfg) (progs : List (List Op)) (sched : Lis
 /-- **Limit**: with `max_used = L` (a limit is set), in every reachable state the elements of all
     chunks in existence — held by threads, in flight, or cached — number at most `L`; in particular
     at most `L` elements are outstanding.  (`used` itself may exceed `L` transiently: it also counts
-    the increments of allocations that are being refused.) -/
+    the increments of allocations that are being refused.  A chunk that is being freed leaves the
+    count at the decrement of `used`, i.e. just before `data_free` is called on it: the model makes
+    that plain call part of the same transition.) -/
 theorem C27_limit (cfg : Cfg) (progs : List (List Op)) (sched : List Nat) (hl : cfg.maxUsed ≠ INF) :
     total cnt (run cfg progs sched) ≤ cfg.maxUsed ∧
     tsum (fun th => csum cnt th.held) (run cfg progs sched).thr ≤ cfg.maxUsed ∧
